@@ -438,6 +438,9 @@ func (s *bitcoinStream) Gen(r *tr.Rng) *tr.Op {
 		for i := len(s.keys) - 1; i >= 0 && i >= len(s.keys)-3; i-- {
 			cands[s.keys[i]] = true
 		}
+		for i := len(s.allKeys) - 1; i >= 0 && i >= len(s.allKeys)-3; i-- {
+			cands[s.allKeys[i]] = true // a key change queued just before this query (not executed yet) may be in force when it runs
+		}
 		if pk, err := s.w.Btc.Pubkey.Get(s.w.Ctx); err == nil { // the key in force right now
 			raw := pk.GetSecp256K1()
 			if raw == nil {
